@@ -687,7 +687,103 @@ def probes():
     P.append(("image-without-representation", prog("G " + S("g"), "IMG " + S("i"), "IN " + S("n"), "IE", "FIN")))
     P.append(("second-projection-rejected", prog("G " + S("g"), "IMG " + S("i"), "ISP p =00 - 1 1 3ff0000000000000 3ff0000000000000",
               "IPH j =01 - 2 2 3ff0000000000000 3ff0000000000000 3ff0000000000000 3ff0000000000000 3ff0000000000000", "IE", "FIN")))
-    return P
+    return P + decisive_probes()
+
+
+def decisive_probes():
+    """Deterministic programs that put every float-valued piece of metadata on the values at which a reader or
+    writer could plausibly special-case it (zero, -0, subnormal, squares that underflow, non-unit, huge, inf, NaN):
+    what decides a property must not be left to the random stream.  Always run, whatever the seed."""
+    def h(x):
+        return "%016x" % (x if isinstance(x, int) else f64bits(x))
+    def h32(x):
+        return "%08x" % (x if isinstance(x, int) else f32bits(x))
+    def prog(*cmds):
+        return [c.split(" ") for c in cmds]
+    xyz = "x~D/-/- y~D/-/- z~D/-/-"
+    Z, NZ, SUB, NSUB, TINY, NTINY = 0.0, 0x8000000000000000, 0x1, 0x8000000000000001, 1e-200, -1e-200
+    HUGE, INF, NINF, NAN, NNAN = 1e200, 0x7ff0000000000000, 0xfff0000000000000, 0x7ff8000000000000, 0xfff8000000000000
+    P = []
+    # ---- poses (rotation w x y z, translation x y z) of a point cloud AND of an image
+    poses = [
+        ("all-zero", (Z, Z, Z, Z), (Z, Z, Z)),
+        ("all-negative-zero", (NZ, NZ, NZ, NZ), (NZ, NZ, NZ)),
+        ("all-smallest-subnormal", (SUB, SUB, SUB, SUB), (SUB, SUB, SUB)),
+        ("all-negative-subnormal", (NSUB, NSUB, NSUB, NSUB), (NSUB, NSUB, NSUB)),
+        ("all-1e-200", (TINY, TINY, TINY, TINY), (TINY, TINY, TINY)),
+        ("all-minus-1e-200", (NTINY, NTINY, NTINY, NTINY), (NTINY, NTINY, NTINY)),
+        ("w-subnormal-rest-zero", (SUB, Z, Z, Z), (Z, Z, SUB)),
+        ("x-1e-200-rest-zero", (Z, TINY, Z, Z), (TINY, Z, Z)),
+        ("y-1e-170-rest-negative-zero", (NZ, NZ, 1e-170, NZ), (NZ, 1e-170, NZ)),
+        ("z-subnormal-w-zero", (Z, Z, Z, 0x000fffffffffffff), (Z, Z, 0x000fffffffffffff)),
+        ("mixed-tiny", (1e-162, -1e-163, 5e-324, 1e-300), (1e-162, -1e-163, 5e-324)),
+        ("identity", (1.0, Z, Z, Z), (Z, Z, Z)),
+        ("negative-identity", (-1.0, NZ, NZ, NZ), (NZ, NZ, NZ)),
+        ("non-unit", (2.0, 3.0, 4.0, 5.0), (-6.5, 7.25, 8e10)),
+        ("nearly-unit", (0.5, 0.5, 0.5, 0.5000000000000001), (0.1, 0.2, 0.30000000000000004)),
+        ("huge", (HUGE, HUGE, HUGE, HUGE), (HUGE, -HUGE, 1.7976931348623157e308)),
+        ("infinite", (INF, NINF, INF, NINF), (INF, NINF, INF)),
+        ("nan", (NAN, NNAN, NAN, NAN), (NAN, NNAN, NAN)),
+        ("one-nan-one-inf", (1.0, NAN, Z, INF), (Z, NAN, NINF)),
+    ]
+    for name, q, t in poses:
+        tr = ":".join(h(v) for v in q + t)
+        P.append(("pose-" + name, prog("G " + S("g"), "PC %s 3 %s" % (S("p"), xyz), "PT " + tr, "PE",
+                                       "IMG " + S("i"), "IT " + tr, "IVR p =00 - 1 1", "IE", "FIN")))
+    # ---- scalar float metadata: every field takes every value (cyclic assignment)
+    vals = [Z, NZ, SUB, NSUB, TINY, NTINY, -1.5, 1.0, 273.15, HUGE, -HUGE, INF, NINF, NAN, NNAN]
+    n = len(vals)
+    def v(i):
+        return h(vals[i % n])
+    for i in range(n):
+        P.append(("environment-%d" % i, prog("G " + S("g"), "PC %s 3 %s" % (S("p"), xyz),
+                                             "PTE " + v(i), "PHU " + v(i + 1), "PAP " + v(i + 2), "PE", "FIN")))
+        # image geometry: pinhole (focal, pixel w/h, principal x/y), spherical (pixel w/h), cylindrical (radius, principal y, pixel w/h),
+        # with image sizes 0, 1 and large (a reader deriving a default from the size must not replace a stored value)
+        w_, h_ = [(0, 0), (1, 1), (4096, 2048), (4294967295, 1)][i % 4]
+        P.append(("image-geometry-%d" % i, prog(
+            "G " + S("g"),
+            "IMG " + S("a"), "IPH j =00 - %d %d %s %s %s %s %s" % (w_, h_, v(i), v(i + 1), v(i + 2), v(i + 3), v(i + 4)), "IE",
+            "IMG " + S("b"), "ISP p =00 =01 %d %d %s %s" % (w_, h_, v(i + 5), v(i + 6)), "IE",
+            "IMG " + S("c"), "ICY j =00 - %d %d %s %s %s %s" % (w_, h_, v(i + 7), v(i + 8), v(i + 9), v(i + 10)), "IE",
+            "FIN")))
+        # times: creation, acquisition start/end of a point cloud, acquisition of an image; both values of the atomic flag
+        for flag in (0, 1):
+            P.append(("times-%d-atomic%d" % (i, flag), prog(
+                "G " + S("g"), "CR %s:%d" % (v(i), flag),
+                "PC %s 3 %s" % (S("p"), xyz), "PAS %s:%d" % (v(i + 1), 1 - flag), "PAE %s:%d" % (v(i + 2), flag), "PE",
+                "IMG " + S("i"), "IA %s:%d" % (v(i + 3), 1 - flag), "IVR p =00 - 1 1", "IE", "FIN")))
+    # ---- limits: six (two) pairwise different values, in every value type, set by the caller and derived from the prototype
+    col = "r~I/0/255 g~I/0/255 b~I/0/255 in~D/-/-"
+    six = [("integer", ["i11", "i22", "i33", "i44", "i55", "i66"], ["i-7", "i77"]),
+           ("scaled", ["s-1", "s2", "s-3", "s4", "s-5", "s6"], ["s-9223372036854775808", "s9223372036854775807"]),
+           ("double", ["d" + h(x) for x in (0.125, 1.25, -2.5, 3.75, NZ, 1e-200)], ["d" + h(SUB), "d" + h(HUGE)]),
+           ("single", ["f" + h32(x) for x in (0.125, 1.25, -2.5, 3.75, 0x80000000, 0x00000001)], ["f" + h32(0x00800000), "f" + h32(0x7f7fffff)]),
+           ("mixed", ["i1", "s2", "d" + h(3.0), "f" + h32(4.0), "i-5", "d" + h(-6.0)], ["f" + h32(-1.0), "i1"]),
+           ("special-floats", ["d" + h(x) for x in (NINF, INF, Z, NZ, -HUGE, HUGE)], ["d" + h(NINF), "d" + h(INF)])]
+    for name, cl, il in six:
+        P.append(("limits-" + name, prog("G " + S("g"), "PC %s 7 %s %s" % (S("p"), xyz, col),
+                                         "PCL + " + " ".join(cl), "PIL + " + " ".join(il), "PE", "FIN")))
+    P.append(("limits-from-prototype-integer", prog("G " + S("g"), "PC %s 7 %s r~I/1/2 g~I/3/4 b~I/5/6 in~I/7/8" % (S("p"), xyz), "PE", "FIN")))
+    P.append(("limits-from-prototype-scaled", prog("G " + S("g"), "PC %s 7 %s r~S/1/2/%s/%s g~S/3/4/%s/%s b~S/5/6/%s/%s in~S/7/8/%s/%s"
+                                                   % (S("p"), xyz, h(0.5), h(1.0), h(0.25), h(2.0), h(0.125), h(3.0), h(2.0), h(4.0)), "PE", "FIN")))
+    P.append(("limits-from-prototype-double", prog("G " + S("g"), "PC %s 7 %s r~D/%s/%s g~D/%s/%s b~D/%s/%s in~D/%s/%s"
+                                                   % (S("p"), xyz, h(0.1), h(0.2), h(0.3), h(0.4), h(0.5), h(0.6), h(0.7), h(0.8)), "PE", "FIN")))
+    P.append(("limits-from-prototype-single", prog("G " + S("g"), "PC %s 7 %s r~F/%s/%s g~F/%s/%s b~F/%s/%s in~F/%s/%s"
+                                                   % (S("p"), xyz, h32(0.1), h32(0.2), h32(0.3), h32(0.4), h32(0.5), h32(0.6), h32(0.7), h32(0.8)), "PE", "FIN")))
+    # ---- extension URLs: every character the writer escapes, alone and in sequences that an escaping done in the
+    #      wrong order would escape twice or not at all
+    urls = ["&", "<", ">", "\"", "'", "\t", "\n", "&amp;", "&lt;", "&gt;", "&quot;", "&#9;", "&#10;", "&#13;", "&amp;lt;", "a&b<c>d\"e'f\tg\nh&amp;&lt;&#38;"]
+    P.append(("extension-urls", [["G", S("g")]] + [["X", S("e%d" % k), S("http://x/%d?" % k + u)] for k, u in enumerate(urls)] + [["FIN"]]))
+    # ---- strings: the CDATA end marker and markup in every string-valued field of root, point cloud and image
+    nasty = ["]]>", "a]]>b]]>", "]]]]><![CDATA[>", "<&>\"'", " lead and trail ", "\n\t ", ""]
+    for k, t in enumerate(nasty):
+        P.append(("strings-%d" % k, prog(
+            "G " + S("g" + t), "CM " + S(t),
+            "PC %s 3 %s" % (S(t), xyz), "PN " + S(t), "PD " + S(t), "PSV " + S(t), "PSM " + S(t), "PSS " + S(t), "PSH " + S(t), "PSW " + S(t),
+            "PSF " + S(t), "POG 2 %s %s" % (S(t), S("x" + t)), "PE",
+            "IMG " + S(t), "IN " + S(t), "ID " + S(t), "IG " + S(t), "ISV " + S(t), "ISM " + S(t), "ISS " + S(t), "IVR p =00 - 1 1", "IE", "FIN")))
+    return [("det-" + nm, pr) for nm, pr in P]
 
 
 # ---------------------------------------------------------------- shrinking
